@@ -66,6 +66,16 @@ func maxExecPerCase() int {
 	return 120000
 }
 
+func c11BadTarget(api string) any {
+	switch api {
+	case "unmarshal-val":
+		return c11Target{}
+	case "unmarshal-slice":
+		return []c11Target{}
+	}
+	return nil
+}
+
 func requireInstrumented() *fw.Fail {
 	if !vsched.Instrumented {
 		return fw.Failf("harness built against the instrumented package (go build -overlay)", "package bcl is not instrumented: this check must be run through run.sh")
@@ -121,6 +131,10 @@ func c11Exec(cs fw.Case) *fw.Fail {
 			var out, log bytes.Buffer
 			err := bcl.Unmarshal([]byte(data), &t, bcl.OptOutput(&out), bcl.OptLogger(&log))
 			want = fmt.Sprintf("err=%v target=%+v out=%q log=%q", err, t, out.String(), log.String())
+		case "unmarshal-val", "unmarshal-nil", "unmarshal-slice":
+			var out, log bytes.Buffer
+			err := bcl.Unmarshal([]byte(data), c11BadTarget(c.API), bcl.OptOutput(&out), bcl.OptLogger(&log))
+			want = fmt.Sprintf("err=%v out=%q log=%q", err, out.String(), log.String())
 		}
 	}
 	// lexical failure: which read delivers the failing byte
@@ -165,6 +179,12 @@ func c11Exec(cs fw.Case) *fw.Fail {
 			o.returned = true
 			o.err = err
 			o.summary = fmt.Sprintf("err=%v target=%+v out=%q log=%q", err, t, out.buf.String(), log.buf.String())
+		case "unmarshal-val", "unmarshal-nil", "unmarshal-slice":
+			// a target that cannot be bound: the input is still the callee's to close
+			err := bcl.UnmarshalFile(o.file, c11BadTarget(c.API), bcl.OptOutput(out), bcl.OptLogger(log))
+			o.returned = true
+			o.err = err
+			o.summary = fmt.Sprintf("err=%v out=%q log=%q", err, out.buf.String(), log.buf.String())
 		}
 		o.returned = true
 	}
@@ -185,6 +205,13 @@ func c11Exec(cs fw.Case) *fw.Fail {
 		}
 		if o.file.Closes != 1 {
 			return "close", fmt.Sprintf("Close called %d times (reads %d)", o.file.Closes, o.file.Reads)
+		}
+		if readErr != "" && strings.HasPrefix(c.API, "unmarshal-") {
+			// which of the two errors (unusable target, read error) is reported is not specified
+			if o.err == nil {
+				return "readerr", "no error returned"
+			}
+			return "bad-target", ""
 		}
 		if readErr != "" {
 			if o.file.ErrVal != nil {
@@ -324,11 +351,18 @@ func c11Scripts(n int, cuts []int) [][]impl.Answer {
 			e := mk()[:i]
 			e = append(e, impl.Answer{N: 0, Err: "boom"})
 			out = append(out, e)
+			// ... an error that wraps io.EOF / is io.ErrUnexpectedEOF (still a read error, not the end of input)
+			for _, kind := range []string{"wrapeof: connection reset", "unexpected-eof"} {
+				out = append(out, append(mk()[:i], impl.Answer{N: 0, Err: kind}))
+			}
 			if i < len(sizes) {
 				// data together with an error
 				d := mk()[:i+1]
 				d[i].Err = "boom"
 				out = append(out, d)
+				dw := mk()[:i+1]
+				dw[i].Err = "wrapeof: reset"
+				out = append(out, dw)
 				// zero-byte read AND a later error (2 deviations)
 				if i+1 < len(sizes) {
 					zz := mk()
@@ -347,7 +381,7 @@ func init() {
 		ID:    "C11",
 		Level: "model_checking",
 		Rule: "stateless model checking of the real ParseFile/InterpretFile/UnmarshalFile pipeline (package bcl rewritten at check time so that its channel operations, go statements and select go through the controlled scheduler mc/vsched): " +
-			"inputs of 5 classes x 2 (valid; syntax error in the first / last chunk; lexical failure in the first chunk with 6 more chunks pending / in the last chunk), each under every reader script of a bounded family (1-3 chunks cut at token and mid-token offsets; <=2 non-default answers among zero-byte read, data+EOF, error, data+error) and tokens-buffer sizes {source value, 1, 2}; " +
+			"inputs of 5 classes x 2 (valid; syntax error in the first / last chunk; lexical failure in the first chunk with 6 more chunks pending / in the last chunk), each under every reader script of a bounded family (1-3 chunks cut at token and mid-token offsets; <=2 non-default answers among zero-byte read, data+EOF, error, data+error; errors of three kinds: plain, wrapping io.EOF, io.ErrUnexpectedEOF; UnmarshalFile also with targets that cannot be bound: a struct value, nil, a slice value) and tokens-buffer sizes {source value, 1, 2}; " +
 			"for each (input, script) ALL schedules of caller, reader, parser and lexer goroutines with <=B preemptions (quick 1, thorough 2; 3 for single-chunk scripts) are executed, and in addition ALL interleavings without any bound, pruned by a causal-history state key (quick: for scripts of <=2 answers through ParseFile; thorough: for every case, capped at 3x10^6 executions each). Oracle on every execution: quiescence without deadlock, the call returned, no goroutine left and none writing to the writers of the caller after the return, Close count = 1, the delivered read error is the returned error, <=3 reads after the read delivering a lexical failure, outcome identical to the in-memory API on the delivered bytes. " +
 			"states/transitions = executions (each a distinct schedule).",
 		Subs:           []*fw.Sub{subC11},
@@ -389,7 +423,11 @@ func init() {
 					scripts = append(scripts, s, append([]impl.Answer{{N: 3}, {N: 4}}, s[1:]...))
 				}
 				for _, sc := range scripts {
-					for _, api := range []string{"parse", "interpret", "unmarshal"} {
+					apis := []string{"parse", "interpret", "unmarshal"}
+					if len(sc) <= 2 {
+						apis = append(apis, "unmarshal-val", "unmarshal-nil", "unmarshal-slice")
+					}
+					for _, api := range apis {
 						for _, tb := range []int{0, 1, 2} {
 							if api != "parse" && tb != 0 {
 								continue
